@@ -708,6 +708,67 @@ example : quantile (fin (1/2)) [fin 3, fin 1, fin 2, fin 5] = fin 2
     ∧ quantile (fin 1) [fin 3, fin 1, fin 2, fin 5] = fin 5 := by
   refine ⟨by decide +kernel, by decide +kernel, by decide +kernel⟩
 
+/-! ### ens2prob: the file as a whole (thresholds and levels in ANY order) -/
+
+/-- **The cdf slice stored at index i belongs to the threshold stored at index i**, whatever the
+order of the `-r` list (ascending, descending, shuffled, with repeats): for every cell, slice `i`
+is the documented fraction of non-missing members strictly below `thr[i]`; the threshold
+coordinate is the list as typed; and read against that coordinate the probabilities never
+decrease with the threshold. -/
+theorem C20_cdf_file (thr qs : Vec) (p : Bool) (f : VFile) (t l s : Nat) (ens : List (Option Rat))
+    (hens : f.member t l s = ens.map toXR) :
+    (ens2probFile thr qs p f).thresholds = thr
+    ∧ (∀ i x, thr[i]? = some (fin x) →
+        (ens2probFile thr qs p f).cdf t l s i = toXR (Spec.Scripts.cdf x ens))
+    ∧ (∀ i j x y a b, thr[i]? = some (fin x) → thr[j]? = some (fin y) → x ≤ y →
+        (ens2probFile thr qs p f).cdf t l s i = fin a →
+        (ens2probFile thr qs p f).cdf t l s j = fin b → 0 ≤ a ∧ a ≤ b ∧ b ≤ 1) := by
+  have hcell : ∀ i x, thr[i]? = some (fin x) →
+      (ens2probFile thr qs p f).cdf t l s i = cdf (fin x) (ens.map toXR) := by
+    intro i x hi
+    simp only [ens2probFile, List.getD_eq_getElem?_getD, hi, Option.getD_some, hens]
+  refine ⟨rfl, ?_, ?_⟩
+  · intro i x hi
+    rw [hcell i x hi, C20_cdf]
+  · intro i j x y a b hi hj hxy ha hb
+    rw [hcell i x hi] at ha
+    rw [hcell j y hj] at hb
+    exact ⟨(C20_cdf_bounds x ens a ha).1, C20_cdf_mono x y hxy ens a b ha hb,
+      (C20_cdf_bounds y ens b hb).2⟩
+
+/-- **The x slice stored at index i belongs to the level stored at index i**, whatever the order of
+the `-q` list: for a complete ensemble (M ≥ 2) and levels in [0,1], slice `i` is member
+⌊q·(M−1)⌋ of the ascending ensemble for `q = qs[i]`, and read against the level coordinate the
+values never decrease with the level and are members of the ensemble. -/
+theorem C20_quantile_file (thr qs : Vec) (p : Bool) (f : VFile) (t l s : Nat) (ens : List Rat)
+    (hens : f.member t l s = ens.map fin) (hM : 2 ≤ ens.length) :
+    (ens2probFile thr qs p f).quantiles = qs
+    ∧ (∀ i q, qs[i]? = some (fin q) → 0 ≤ q → q ≤ 1 →
+        (ens2probFile thr qs p f).x t l s i = toXR (Spec.Scripts.quantileSorted q (sortR ens)))
+    ∧ (∀ i j q q', qs[i]? = some (fin q) → qs[j]? = some (fin q') → 0 ≤ q → q ≤ q' → q' ≤ 1 →
+        ∃ a b, (ens2probFile thr qs p f).x t l s i = fin a
+          ∧ (ens2probFile thr qs p f).x t l s j = fin b ∧ a ≤ b ∧ a ∈ ens ∧ b ∈ ens) := by
+  have hcell : ∀ i q, qs[i]? = some (fin q) →
+      (ens2probFile thr qs p f).x t l s i = quantile (fin q) (ens.map fin) := by
+    intro i q hi
+    simp only [ens2probFile, List.getD_eq_getElem?_getD, hi, Option.getD_some, hens]
+  refine ⟨rfl, ?_, ?_⟩
+  · intro i q hi h0 h1
+    rw [hcell i q hi, C20_quantile_def ens hM q h0 h1]
+  · intro i j q q' hi hj h0 hqq h1
+    obtain ⟨a, b, ha, hb, hab, hma, hmb, _⟩ := C20_quantile ens hM q q' h0 hqq h1
+    exact ⟨a, b, by rw [hcell i q hi, ha], by rw [hcell j q' hj, hb], hab, hma, hmb⟩
+
+/-- non-vacuity: `-r 5,1,3 -q 1,1/4` on one cell with members 3, 4, 5, 9 -/
+example :
+    let f : VFile := ⟨"T", "K", [0], [0], [fin 1], [fin 0], [fin 0], [fin 0], none, none, 4,
+      fun _ _ _ m => [fin 3, fin 4, fin 5, fin 9].getD m nan⟩
+    let o := ens2probFile [fin 5, fin 1, fin 3] [fin 1, fin (1/4)] false f
+    o.thresholds = [fin 5, fin 1, fin 3]
+    ∧ [o.cdf 0 0 0 0, o.cdf 0 0 0 1, o.cdf 0 0 0 2] = [fin (1/2), fin 0, fin 0]
+    ∧ [o.x 0 0 0 0, o.x 0 0 0 1] = [fin 9, fin 3] := by
+  decide +kernel
+
 /-! ### expandverif -/
 
 /-- every stored pair as (valid time, observation at location s), in file order: times outer
